@@ -327,7 +327,7 @@ def assemble(unit_dir, mode='verify'):
             items.append({'kind': 'fn', 'file': os.path.join(REPO, c.file), 'path': c.path, 'anchors': anchors,
                           'replace_stmt': c.replace_stmt, 'replace_expr': c.replace_expr,
                           'no_rewrite': [k[3:] for k in c.opts if k.startswith('no-')],
-                          'sig_only': c.stub, 'retain': c.opts.get('retain'), 'mutself': bool(c.opts.get('mutself'))})
+                          'sig_only': c.stub, 'retain': c.opts.get('retain'), 'mutself': bool(c.opts.get('mutself')), 'setiter': [x for x in str(c.opts.get('setiter', '')).split(',') if x and x != 'True']})
     resp = run_vx(items, meta['features'])
     for it, r in zip(items, resp):
         if not r['ok']:
@@ -360,6 +360,8 @@ def assemble(unit_dir, mode='verify'):
                     raise Undecided(f"type {c['name']}: assumption about derive({tr}) but the real type derives {sorted(real)}")
                 if tr == 'Clone':
                     g.add('impl Clone for %s { #[verifier::external_body] fn clone(&self) -> (r: Self) ensures r == *self { unimplemented!() } } // assumed: #[derive(Clone)] copies structurally' % c['name'], ('tpl', c['line']))
+                elif tr == 'Default':
+                    g.add('impl Default for %s { #[verifier::external_body] fn default() -> (r: Self) { unimplemented!() } } // assumed: #[derive(Default)] returns SOME value (nothing is claimed about it)' % c['name'], ('tpl', c['line']))
                 elif tr == 'PartialEq':
                     g.add('impl vstd::std_specs::cmp::PartialEqSpecImpl for %s { open spec fn obeys_eq_spec() -> bool { true } open spec fn eq_spec(&self, other: &Self) -> bool { *self == *other } } // assumed: #[derive(PartialEq)] is structural equality (no float field)' % c['name'], ('tpl', c['line']))
                 else:
